@@ -42,6 +42,10 @@ ALPHABET = {
     "Pc": ("s200d,o,s200d,t,c,t", [OK_V, OK_U, ("raise", "conn")]),
     "Pt": ("s200d,o,s200d,t,t,t", [OK_V, OK_U, ("raise", "readtimeout")]),
     "Pf": ("s200d,o,s200d,t,s200d,f", [OK_V, OK_U, ("resp", 200, {"success": False})]),
+    # a rejection that explains itself: text, a structured report, a number
+    "Pm": ("s200d,o,s200d,t,s200d,f", [OK_V, OK_U, ("resp", 200, {"success": False, "message": "no such consumer"})]),
+    "Pd": ("s200d,o,s200d,t,s200d,f", [OK_V, OK_U, ("resp", 200, {"success": False, "message": {"code": 7, "errors": ["x", "y"]}})]),
+    "Pn": ("s200d,o,s200d,t,s400d,f", [OK_V, OK_U, ("resp", 400, {"success": False, "message": 404, "items": [1]})]),
     "Pa": ("s200d,o,s200d,a,s200d,a", [OK_V, ("resp", 200, {"items": [{"username": "x"}]}), ("resp", 200, {"message": "?"})]),
     "Px": ("s200d,o,s200d,t,x500,t", [OK_V, OK_U, ("resp", 500, "NOTJSON")]),
     "Pl": ("s200d,o,s200d,t,s200l,t", [OK_V, OK_U, ("resp", 200, None)]),
@@ -51,7 +55,7 @@ ALPHABET = {
     "S201": ("s200d,o,s200d,t,s201d,t", [OK_V, OK_U, ("resp", 201, {"success": True})]),
     "S202": ("s200d,o,s200d,t,s202d,t", [OK_V, OK_U, ("resp", 202, {"success": True})]),
 }
-QUICK_LETTERS = ["Vc", "Vx", "Uf", "Ue", "Pt", "Pf", "Px", "S", "S201"]
+QUICK_LETTERS = ["Vc", "Vx", "Uf", "Ue", "Pt", "Pf", "Pd", "Px", "S", "S201"]
 
 
 class FakeResponse(object):
